@@ -49,7 +49,7 @@ class TaskiqResult(BaseModel, Generic[_ReturnType]):
         :returns: Any
         :param value: exception to serialize.
         """
-        if value:
+        if value is not None:
             return prepare_exception(value, _JsonCoder)
 
         return None
